@@ -457,6 +457,37 @@ func c17Receive(ctx *Ctx) {
 			b, how = pb.Bytes(), "hostile-block"
 		}
 	}
+	if how != "hostile-block" && r.Intn(4) == 0 {
+		// a well-formed packfile whose TABLE object lies about its blocks: a key column index beyond the
+		// row width, a row count that does not match the blocks, a column list of another width
+		if tbl, err := objects.GetTable(src, tsum); err == nil {
+			switch r.Intn(4) {
+			case 0:
+				tbl.PK = []uint32{uint32(len(tbl.Columns) + r.Intn(5))}
+			case 1:
+				tbl.RowsCount += uint32(1 + r.Intn(600))
+			case 2:
+				tbl.Columns = tbl.Columns[:len(tbl.Columns)-1]
+			default:
+				tbl.Columns = append(tbl.Columns, "extra")
+				tbl.PK = []uint32{uint32(len(tbl.Columns) - 1)}
+			}
+			tb := newBuf()
+			if _, err := tbl.WriteTo(tb); err == nil {
+				pb := newBuf()
+				if pw, err := packfile.NewPackfileWriter(pb); err == nil {
+					for _, bs := range tbl.Blocks {
+						if raw, err := src.Get(append([]byte("blk/"), bs...)); err == nil {
+							pw.WriteObject(packfile.ObjectBlock, raw)
+						}
+					}
+					pw.WriteObject(packfile.ObjectTable, tb.Bytes())
+					pw.WriteObject(packfile.ObjectCommit, cb.Bytes())
+					b, how = pb.Bytes(), "hostile-table"
+				}
+			}
+		}
+	}
 	in := &c17RecvInput{Bytes: hx(b), PerByte: 512, Slack: 16 << 20}
 	var ms1, ms2 runtime.MemStats
 	runtime.GC()
